@@ -152,6 +152,7 @@ func init() {
 				c02Run(c, c02Decode(idx, 4, 5), idx%2 == 1)
 			}},
 			{Name: "lattice", N: c02LatticeN, Run: c02Lattice, Exhaustive: true},
+			{Name: "number-texts", N: c18NumN, Run: c02NumTexts, Exhaustive: true},
 			{Name: "random", N: func(c *Ctx) int { return tierN(c, 40000, 6000000) }, Run: c02Random},
 			{Name: "reentrant-pairs", N: c02NestN, Run: c02Nest, Exhaustive: true},
 			{Name: "wide", N: c02WideN, Run: c02Wide, Exhaustive: true},
